@@ -77,6 +77,8 @@ class FunGen:
                 na = r.choice([0, 0, 1, 1, 2])
                 args = [("u%d" % a, r.choice(["i64", "i64", "D0"])) for a in range(na)]
                 ret = r.choice(["i64", "i64", "D0"] + (["C%d" % (i - 1)] if i > 0 else []))
+                if r.random() < 0.45:   # a covariable parameter (argument names starting with k are consumers), mostly of the result type
+                    args.append(("k%d" % len(args), ret if (ret in ("i64", "D0") and r.random() < 0.7) else "i64"))
                 dtors.append(("d%d_%d" % (i, j), args, ret))
             self.codata[name] = {"params": [], "dtors": dtors}
             self.insts.append(name)
@@ -141,7 +143,8 @@ class FunGen:
             out.append("data %s%s { %s }" % (n, ps, cs))
         for n, d in self.codata.items():
             ps = "[%s]" % ", ".join(d["params"]) if d["params"] else ""
-            ds = ", ".join(dn + ("(%s)" % ", ".join("%s: %s" % a for a in as_) if as_ else "") + ": " + rt for dn, as_, rt in d["dtors"])
+            ds = ", ".join(dn + ("(%s)" % ", ".join(("%s :cns %s" if a[0].startswith("k") else "%s: %s") % a for a in as_) if as_ else "") + ": " + rt
+                           for dn, as_, rt in d["dtors"])
             out.append("codata %s%s { %s }" % (n, ps, ds))
         return "\n".join(out)
 
@@ -221,6 +224,8 @@ class FunGen:
             choices += ["print", "print"]
             if self.labels:
                 choices += ["label", "goto"]
+                if any(an.startswith("k") and t == ty for c in self.insts if self.is_codata(c) for _, as_, _ in self.dtors_of(c) for an, t in as_):
+                    choices += ["handler", "handler"]
             if r.random() < 0.15:
                 choices += ["exit"]
         k = r.choice(choices)
@@ -369,7 +374,8 @@ class FunGen:
         clauses, pure = [], True
         for dn, as_, rt in self.dtors_of(ty):
             names, pnames, cctx = [], [], list(ctx)
-            for _, t in as_:
+            kbind = None
+            for an, t in as_:
                 pn, n = self.fresh_name(cctx)
                 while pn in pnames:
                     self.uid += 1
@@ -377,10 +383,16 @@ class FunGen:
                     n = self.real(pn)
                 pnames.append(pn)
                 names.append(n)
-                cctx.append((pn, "prd", t, n))
+                cctx.append((pn, "cns" if an.startswith("k") else "prd", t, n))
+                if an.startswith("k"):
+                    kbind = (n, t)
             # clause bodies are pure in mode seq (a destructor call is then a pure expression)
             body = self.gen(rt, cctx, max(0, b // 2), False)
             pure = pure and body.pure
+            ivs = [x for x in cctx[len(ctx):] if x[1] == "prd" and x[2] == "i64"]
+            if kbind and ivs and self.r.random() < 0.6:
+                # leave through the covariable parameter for one input value (calls of such destructors are never pure, see g_dtor)
+                body = T("if %s == 0 { goto %s (%s) } else { %s }" % (ivs[0][3], kbind[0], self.leaf(kbind[1], cctx).at(4), body.at(4)), 3, body.pure)
             clauses.append("%s%s => %s" % (dn, self.site("binders", "(%s)" % ", ".join(names) if names else "", names=list(names)), body.at(4)))
         return T("new { %s }" % self.site("clauses", ", ".join(clauses), clauses=list(clauses), form="new"), 2, pure)
 
@@ -392,12 +404,28 @@ class FunGen:
             if not ds:
                 continue
             dn, as_, rt = self.r.choice(ds)
+            if any(an.startswith("k") for an, _ in as_) and not eff:
+                continue                 # may leave through the covariable argument: only where effects are allowed
             obj = self.gen(cty, ctx, b // 2, False)
-            args = [self.gen(t, ctx, b // (len(as_) + 2), False) for _, t in as_]
+            args, chis = [], []
+            for an, t in as_:
+                if an.startswith("k"):
+                    cs = self.covars_of(ctx, t)
+                    if not cs:
+                        args = None
+                        break
+                    args.append(T(self.r.choice(cs)[3], 1))
+                    chis.append("cns")
+                else:
+                    args.append(self.gen(t, ctx, b // (len(as_) + 2), False))
+                    chis.append("prd")
+            if args is None:
+                continue
             return T("%s.%s%s%s" % (obj.at(2), dn, self.site("targs", self.targs(cty)) if self.targs(cty) else "",
                                     "(%s)" % self.site("args", ", ".join(a.at(4) for a in args), args=[a.at(4) for a in args], types=[t for _, t in as_],
-                                                       chis=["prd"] * len(as_), prdvars=[], covars=[]) if args else ""), 2,
-                     obj.pure and all(a.pure for a in args))
+                                                       chis=chis, prdvars=[b_[3] for b_ in self.visible(ctx) if b_[1] == "prd"],
+                                                       covars=[b_[3] for b_ in self.visible(ctx) if b_[1] == "cns"]) if args else ""), 2,
+                     obj.pure and all(a.pure for a in args) and "cns" not in chis)
         return None
 
     def g_print(self, ty, ctx, b, eff):
@@ -413,6 +441,29 @@ class FunGen:
         pname, name = self.fresh_name(ctx)
         body = self.gen(ty, ctx + [(pname, "cns", ty, name)], b - 1, eff)
         return T("label %s { %s }" % (name, body.at(4)), 3, False)
+
+    def g_handler(self, ty, ctx, b, eff):
+        """label K { let r: RT = obj.d(args.., K); body }: a destructor call that receives a label of the enclosing block as its
+        covariable argument and is NOT the tail of that block (its own return continuation is the rest of the let)"""
+        cands = [(c, d) for c in self.insts if self.is_codata(c) for d in self.dtors_of(c) if any(an.startswith("k") and t == ty for an, t in d[1])]
+        if not cands:
+            return None
+        cty, (dn, as_, rt) = self.r.choice(cands)
+        kp, kn = self.fresh_name(ctx)
+        ctx2 = ctx + [(kp, "cns", ty, kn)]
+        obj = self.gen(cty, ctx2, b // 3, False)
+        args = []
+        for an, t in as_:
+            if an.startswith("k"):
+                cs = [kn] if t == ty else [c[3] for c in self.covars_of(ctx2, t)]
+                if not cs:
+                    return None
+                args.append(self.r.choice(cs))
+            else:
+                args.append(self.gen(t, ctx2, b // (len(as_) + 3), False).at(4))
+        rp, rn = self.fresh_name(ctx2)
+        body = self.gen(ty, ctx2 + [(rp, "prd", rt, rn)], b // 2, eff)
+        return T("label %s { let %s: %s = %s.%s%s(%s); %s }" % (kn, rn, rt, obj.at(2), dn, self.targs(cty), ", ".join(args), body.at(4)), 3, False)
 
     def g_goto(self, ty, ctx, b, eff):
         cs = [c for c in self.visible(ctx) if c[1] == "cns"]
